@@ -1,0 +1,20 @@
+// Copyright 2026 The Go Authors. All rights reserved.
+// Use of this source code is governed by a BSD-style
+// license that can be found in the LICENSE file.
+
+//go:build verif
+
+package pkcs12
+
+import (
+	"crypto/cipher"
+
+	"golang.org/x/crypto/pkcs12/internal/rc2"
+)
+
+// Verification hook (build tag "verif" only): the RC2 cipher lives in an
+// internal package, which a conformance harness outside this module cannot
+// import. VerifRC2New re-exports its constructor unchanged.
+func VerifRC2New(key []byte, t1 int) (cipher.Block, error) {
+	return rc2.New(key, t1)
+}
